@@ -1,11 +1,13 @@
 package main
 
 import (
+	"encoding/json"
 	"fmt"
 	"math/rand"
 	"sort"
 	"strings"
 	"sync"
+	"sync/atomic"
 	"time"
 
 	"berty.tech/go-orbit-db/iface"
@@ -18,7 +20,7 @@ func init() {
 	fw.Register(&fw.Property{
 		ID:    "C17",
 		Level: "exploration",
-		Rule: "cases = 2-8 goroutines x 3-20 writes on ONE store (all three types, on-disk directory) with a schedule-point handler in {none, PRNG delays at write.after-append / write.after-persist / write.after-index, targeted: the writer that arrives first at write.after-append is held until another writer has passed write.after-persist, index-hold: one index rebuild is held at index.after-values while other writers proceed, index-inversion: the writer that persisted first refreshes the view only after a later writer has refreshed it}, some on a store preloaded with 120 entries; every other write goes to a key only its goroutine uses and is read back by that goroutine at once; then close, reopen on the same directory and Load(-1). The arrival order at the points is recorded. " +
+		Rule: "cases = 2-8 goroutines x 3-20 writes on ONE store (all three types, on-disk directory) with a schedule-point handler in {none, PRNG delays at write.after-append / write.after-persist / write.after-index, targeted: the writer that arrives first at write.after-append is held until another writer has passed write.after-persist, index-hold: one index rebuild is held at index.after-values while other writers proceed, index-inversion: the writer that persisted first refreshes the view only after a later writer has refreshed it}, some on a store preloaded with 120 entries; every other write goes to a key only its goroutine uses and is read back by that goroutine at once; document stores also use the batched write (PutBatch of 3 documents), in particular as the last writes of every second goroutine; one local-head write in three is slow (0.2-2 ms, 2-4 ms while a batched write is in flight), injected at the cache datastore, and if an older head is seen to land after a newer one the writers stop there so that the schedule ends with that pair; then close, reopen on the same directory and Load(-1). The arrival order at the points is recorded. " +
 			"distinct = hash(store type, goroutines, writes, handler, observed arrival-order signature); non-trivial = write calls really overlapped at the API boundary (a call started while another was in flight); the number of arrivals at write.after-append while another writer was between append and persist is reported separately",
 		Assumptions: []string{"clean close before the restart (crashes are C05)", "one store instance per identity"},
 		Cases:       c17Cases,
@@ -50,7 +52,57 @@ func c17Run(c fw.Case) fw.Verdict {
 	defer e.Close()
 	v := fw.Verdict{}
 	typ, g, w, handler := c.Str("type", tKV), c.Int("g", 2), c.Int("w", 5), c.Str("handler", "none")
-	P, err := e.W.AddPeer(sim.PeerOpts{OnDisk: true})
+	// persisting a head may take a while: some local-heads writes are slow (PRNG), which widens whatever
+	// window there is between appending an entry and persisting it as the head
+	fc := newFaultCache()
+	var batchInFlight int32
+	crng := rand.New(rand.NewSource(c.Seed + 9))
+	var cmu sync.Mutex
+	var slowPuts int64
+	fc.SlowPut = func(key string) time.Duration {
+		if key != "/_localHeads" {
+			return 0
+		}
+		cmu.Lock()
+		defer cmu.Unlock()
+		if atomic.LoadInt32(&batchInFlight) > 0 && crng.Intn(2) == 0 {
+			// while a batched write is in flight head writes are slower still
+			slowPuts++
+			return time.Duration(2000+crng.Intn(2000)) * time.Microsecond
+		}
+		if crng.Intn(3) != 0 {
+			return 0
+		}
+		slowPuts++
+		return time.Duration(200+crng.Intn(1800)) * time.Microsecond
+	}
+	// observed at the datastore boundary: if a head write is overtaken (an older head lands after a newer
+	// one) the writers stop right there, so that the schedule ends with that pair and the restart oracle
+	// below decides whether an acknowledged write was lost
+	var stopWrites int32
+	var lastHeadTime, overtaken int64
+	fc.AfterPut = func(key string, val []byte) {
+		if key != "/_localHeads" {
+			return
+		}
+		var hs []struct {
+			Clock struct {
+				Time int64 `json:"time"`
+			} `json:"clock"`
+		}
+		if json.Unmarshal(val, &hs) != nil || len(hs) == 0 {
+			return
+		}
+		cmu.Lock()
+		if hs[0].Clock.Time < lastHeadTime {
+			overtaken++
+			atomic.StoreInt32(&stopWrites, 1)
+		} else {
+			lastHeadTime = hs[0].Clock.Time
+		}
+		cmu.Unlock()
+	}
+	P, err := e.W.AddPeer(sim.PeerOpts{OnDisk: true, Cache: fc})
 	if err != nil {
 		return fw.Verdict{Status: fw.Inconclusive, What: err.Error()}
 	}
@@ -180,7 +232,7 @@ func c17Run(c fw.Case) fw.Verdict {
 		wg.Add(1)
 		go func(gi int) {
 			defer wg.Done()
-			for i := 0; i < w; i++ {
+			for i := 0; i < w && atomic.LoadInt32(&stopWrites) == 0; i++ {
 				op := honestOp(typ, gi*1000+i)
 				own := i%2 == 1 // every other write goes to a key only this goroutine uses: read-your-writes is then decidable
 				switch typ {
@@ -193,6 +245,10 @@ func c17Run(c fw.Case) fw.Verdict {
 					if own {
 						id := fmt.Sprintf("own-g%d", gi)
 						op = Op{Kind: "put", Key: id, Docs: []Doc{{ID: id, N: gi*1000 + i, Tag: "own"}}}
+						if i%4 == 3 || (i >= w-2 && gi%2 == 0) {
+							// the batched write path: several entries appended by one call
+							op = Op{Kind: "putbatch", Key: id, Docs: []Doc{{ID: id, N: gi*1000 + i, Tag: "own"}, {ID: fmt.Sprintf("b%d", (gi+i)%3), N: gi*1000 + i, Tag: "batch"}, {ID: fmt.Sprintf("own2-g%d", gi), N: gi*1000 + i, Tag: "own"}}}
+						}
 					}
 				}
 				amu.Lock()
@@ -201,7 +257,13 @@ func c17Run(c fw.Case) fw.Verdict {
 				}
 				inflight++
 				amu.Unlock()
+				if op.Kind == "putbatch" {
+					atomic.AddInt32(&batchInFlight, 1)
+				}
 				res, err := ApplyOp(bg, s, op)
+				if op.Kind == "putbatch" {
+					atomic.AddInt32(&batchInFlight, -1)
+				}
 				if err == nil {
 					// the call returned: its own entry must be visible to the caller at once
 					var seen bool
@@ -248,6 +310,10 @@ func c17Run(c fw.Case) fw.Verdict {
 	e.W.Settle()
 	e.H.ClearPoints()
 	v.Count("index_rebuilds_held", int64(ih.Holds))
+	cmu.Lock()
+	v.Count("slow_local_head_writes", slowPuts)
+	v.Count("head_writes_overtaken_by_an_older_head", overtaken)
+	cmu.Unlock()
 	if ryw != nil {
 		return fw.Verdict{Status: fw.Violated, Key: ryw.Key, What: ryw.What + fmt.Sprintf(" (handler %s, %d goroutines)", handler, g), NonTrivial: true, Sig: fw.HashSig(typ, g, w, handler, c.Seed)}
 	}
